@@ -89,6 +89,49 @@ Definition tj_scalar (k : skind) (n : N) : jv :=
                else if n =? ninf_bits then JStr s_ninf else JFloat n
   end.
 
+(* ---------------------------------------------------------------------------------------------
+   internal/json.ValidateUTF8 (unicode/utf8.Valid on the request buffer), the first thing every public
+   JSONUnmarshaler.UnmarshalX does.  The structural characters of JSON are ASCII, so the buffer is valid
+   iff every key and every string of the tree is (RFC 3629: no overlongs, no surrogates, <= U+10FFFF). *)
+Definition in_rng (lo hi x : N) : bool := (lo <=? x) && (x <=? hi).
+Definition cont (x : N) : bool := in_rng 128 191 x.
+
+Fixpoint utf8_valid (l : bytes) : bool :=
+  match l with
+  | [] => true
+  | b0 :: r =>
+      if b0 <? 128 then utf8_valid r
+      else if in_rng 194 223 b0 then
+        match r with b1 :: r' => cont b1 && utf8_valid r' | _ => false end
+      else if in_rng 224 239 b0 then
+        match r with
+        | b1 :: b2 :: r' =>
+            (if b0 =? 224 then in_rng 160 191 b1 else if b0 =? 237 then in_rng 128 159 b1 else cont b1)
+            && cont b2 && utf8_valid r'
+        | _ => false
+        end
+      else if in_rng 240 244 b0 then
+        match r with
+        | b1 :: b2 :: b3 :: r' =>
+            (if b0 =? 240 then in_rng 144 191 b1 else if b0 =? 244 then in_rng 128 143 b1 else cont b1)
+            && cont b2 && cont b3 && utf8_valid r'
+        | _ => false
+        end
+      else false
+  end.
+
+Fixpoint str_bytes (s : string) : bytes :=
+  match s with EmptyString => [] | String a r => N_of_ascii a :: str_bytes r end.
+
+Fixpoint jv_utf8 (j : jv) {struct j} : bool :=
+  match j with
+  | JStr s => utf8_valid s
+  | JArr l => (fix go (l : list jv) : bool := match l with [] => true | x :: r => jv_utf8 x && go r end) l
+  | JObj o => (fix go (o : list (string * jv)) : bool :=
+                 match o with [] => true | (k, x) :: r => utf8_valid (str_bytes k) && jv_utf8 x && go r end) o
+  | _ => true
+  end.
+
 Section JCodec.
 Variable Sc : schema.
 
@@ -284,6 +327,10 @@ Fixpoint oj_fields (m : nat) (o : list (string * jv)) (cur : list pv) : option (
 (* the public entry points also run otlp.MigrateX on the result (a no-op on what JSON can produce:
    the deprecated fields have no JSON key) *)
 Definition of_json (m : nat) (x : jv) : option pv := option_map (migrate Sc m) (oj_val (TMsg m) None x).
+
+(* the public entry points JSONUnmarshaler.UnmarshalLogs / Metrics / Traces / Profiles (and the
+   ExportRequest.UnmarshalJSON wrappers, which delegate to them): ValidateUTF8 first, then of_json *)
+Definition unmarshal_json (m : nat) (x : jv) : option pv := if jv_utf8 x then of_json m x else None.
 
 (* ---------------------------------------------------------------------------------------------
    coverage of a field by the decoder table: both spellings of the key are decoded into this
